@@ -287,3 +287,55 @@ class IntKey(int):
         o = int.__new__(cls, 0)
         o.sym = sym
         return o
+
+    # every use of the value goes to the symbolic carrier (the concrete int 0 must never leak into a comparison or an arithmetic expression)
+    def __lt__(self, o):
+        return self.sym < o
+
+    def __le__(self, o):
+        return self.sym <= o
+
+    def __gt__(self, o):
+        return self.sym > o
+
+    def __ge__(self, o):
+        return self.sym >= o
+
+    def __eq__(self, o):
+        return self.sym == o
+
+    def __ne__(self, o):
+        return self.sym != o
+
+    __hash__ = int.__hash__
+
+    def __add__(self, o):
+        return self.sym + o
+
+    __radd__ = __add__
+
+    def __sub__(self, o):
+        return self.sym - o
+
+    def __rsub__(self, o):
+        return SInt.lift(o) - self.sym
+
+    def __neg__(self):
+        return -self.sym
+
+    def __mul__(self, o):
+        return self.sym * o
+
+    __rmul__ = __mul__
+
+    def __mod__(self, o):
+        return self.sym % o
+
+    def __abs__(self):
+        return abs(self.sym)
+
+    def __bool__(self):
+        return bool(self.sym != 0)
+
+    def __index__(self):
+        raise Unsupported("a symbolic integer index used as a concrete Python index")
